@@ -6,6 +6,7 @@ import PV.Gen.C09ModeNames
 import PV.C09.LexShift   -- lexer model: PV.C09.lex_shift, lex_shift_of_fit (the `ShiftEnv.lex` hypothesis below, proved there)
 import PV.C09.Pipeline   -- text → answer on the models (lexer model, filter, token conversion, PV.Prog.parseProgram)
 import PV.C09.RShift     -- the ranged expression parser PV.C02.parseR commutes with a shift of the span table
+import PV.C09.RShiftTree -- … and what the shift is on the generic ranged tree PV.C02.Tree
 import PV.Prog.Thm       -- PV.Prog.parseProgram_layout_free
 /-
   C09 — property theorems: "start offsets only translate positions; all entry points agree".
